@@ -99,6 +99,28 @@ var catastrophic = []catFam{
 	// catastrophic inside a lookbehind (the interpreter runs right-to-left there), behind a leading set
 	{`\w+(?<=^\d(?:\w|\w\w)*)`, 0, InputSpec{Unit: "a", Rep: 30}, "lookbehind", "1ab2 x"},
 	{`[a-z]+(?<=^\d(?:[a-z]|[a-z][a-z])*)\d`, 0, InputSpec{Unit: "ab", Rep: 16}, "lookbehind", "ab1"},
+	// cheap matches first (in scan direction), then the blow-up: a multi-match call is abandoned after it
+	// has produced part of its result
+	{`x|(a+)+$`, 0, InputSpec{Pre: "1 x 2 x ", Unit: "a", Rep: 44, Suf: "!"}, "late-blowup", "1 x 2 x 3"},
+	{`x|q(a+)+`, oRTL, InputSpec{Pre: "z", Unit: "a", Rep: 44, Suf: " x mid x tail"}, "late-blowup", "1 x 2 x 3"},
+	{`\d|(?:a*)*b`, 0, InputSpec{Pre: "1 2 3 ", Unit: "a", Rep: 400}, "late-blowup", "4 ab 5"},
+}
+
+// Stack-hungry (pattern, input) families under a backtracking stack limit, with cheap matches before the
+// overflow (in scan direction): a multi-match call is abandoned by the limit after part of its result exists.
+type limFam struct {
+	Pat   string
+	Opts  int
+	Limit int
+	In    InputSpec
+	Probe []string
+}
+
+var lateLimit = []limFam{
+	{`x|(a|b)*!`, oRTL, 2000, InputSpec{Pre: "head ", Unit: "a", Rep: 3000, Suf: "! mid x tail"}, []string{"1 x 2", "ab! x", "x"}},
+	{`x|(a|b)*!`, 0, 2000, InputSpec{Pre: "1 x mid ", Unit: "ab", Rep: 1500, Suf: "! tail"}, []string{"1 x 2", "ab! x", "x"}},
+	{`\d+|(?:\w\s?)*?\.`, 0, 800, InputSpec{Pre: "12 34 ", Unit: "ab ", Rep: 600, Suf: "."}, []string{"1 a. 2", "7"}},
+	{`(?<n>\d)|(?:[a-c]|,)*;`, oRTL, 500, InputSpec{Pre: "q", Unit: "a,", Rep: 800, Suf: "; 5 6"}, []string{"1 a; 2", "7 8 9"}},
 }
 
 // Quick (pattern, input) pairs for timed operations that finish well inside any deadline.
